@@ -64,10 +64,22 @@ def _setup_once():
     def servo_ok(self):
         EVALS["n"] += 1
         a, p = self.read(), self.read_us()
-        if not (self._min_angle <= a <= self._max_angle and self._min_pulse <= p <= self._max_pulse):
+
+        def bound(name):
+            # the configured bounds, under whichever attribute spelling the class uses
+            for cand in ("_" + name, name, name.replace("_pulse", "_pulse_us"), "_" + name.replace("_pulse", "_pulse_us")):
+                if hasattr(self, cand):
+                    return getattr(self, cand)
+            return None
+
+        lo, hi, plo, phi = bound("min_angle"), bound("max_angle"), bound("min_pulse"), bound("max_pulse")
+        if None in (lo, hi, plo, phi):
+            EVALS["servo_bounds_unreadable"] = EVALS.get("servo_bounds_unreadable", 0) + 1
+            return True
+        if not (lo <= a <= hi and plo <= p <= phi):
             return False
-        expect = self._min_pulse + (a - self._min_angle) / (self._max_angle - self._min_angle) * (self._max_pulse - self._min_pulse)
-        return abs(p - expect) <= 1e-6 * max(1.0, self._max_pulse - self._min_pulse)
+        expect = plo + (a - lo) / (hi - lo) * (phi - plo)
+        return abs(p - expect) <= 1e-6 * max(1.0, phi - plo)
 
     def motor_ok(self):
         EVALS["n"] += 1
